@@ -370,6 +370,8 @@ bool StepExtended(ScriptExecutionEnvironment& env, CScript::const_iterator& pc, 
     case OP_CAT:
         // (x1 x2 -- out)
         if (stack.size() < 2) return set_error(serror, SCRIPT_ERR_INVALID_STACK_OPERATION);
+        // the result is an element like any other: no operation puts more than 520 bytes on the stack
+        if (stacktop(-2).size() + stacktop(-1).size() > MAX_SCRIPT_ELEMENT_SIZE) return set_error(serror, SCRIPT_ERR_PUSH_SIZE);
         vch1 = stacktop(-2);
         vch2 = stacktop(-1);
         vch1.insert(vch1.end(), vch2.begin(), vch2.end());
